@@ -740,6 +740,11 @@ func (cowHooks) OnSliceStore(c *engine.Ctx, instr ssa.Instruction, so engine.Sli
 
 func (cowHooks) OnCall(c *engine.Ctx, instr ssa.Instruction, callee *ssa.Function, args []engine.AbsVal) (bool, engine.AbsVal) {
 	pure := map[string]bool{"bytes.HasSuffix": true, "bytes.Equal": true, "unicode/utf8.DecodeLastRune": true}
+	// a helper of the module is interpreted like the routine itself (its
+	// stores and appends are seen by the hooks above)
+	if c.It.Cfg.InModule(callee) && callee.Blocks != nil {
+		return false, nil
+	}
 	if !pure[callee.String()] {
 		for _, a := range args {
 			if so, ok := a.(engine.SliceOf); ok && so.Obj == "input" {
